@@ -271,9 +271,9 @@ Built == phase = "built"
 HasUntouched == Untouched(rsys) \cap Substs # {}
 ConstRHS(cf) == \E s \in Substs \cap Touched(rsys) :
                    \A m \in ExpectedPoly(cf, s) : m[2] = 0 /\ DOMAIN m[3] = {}
-\*  - substances handed over under ALIAS keys (key # Substance.name): get_odesys names its variables
-\*    after Substance.name and then looks the reactions' keys up among them (KeyError).
-MayRefuse(cf) == HasUntouched \/ ConstRHS(cf) \/ (cf.alias /\ cf.builder = "get_odesys")
+\* (Alias keys - key # Substance.name - are accepted by both builders: the names of the ODE system
+\*  are the KEYS.  Until repo commit 499a3b2 get_odesys refused such systems with a KeyError.)
+MayRefuse(cf) == HasUntouched \/ ConstRHS(cf)
 
 ------------------------------------------------------------------------------
 (* invariants *)
